@@ -91,20 +91,20 @@ mutual
 /-- Values that can be Dict keys (no list / dict / bytearray inside) and that come back unchanged but
     for the identity of big ints. `su`: the decoder's StrictUnicode (a ByteString key comes back as a
     string otherwise, which changes what it equals). -/
-def keyLike (su : Bool) : GoVal → Bool
+def keyLike (su rk : Bool) : GoVal → Bool
   | .none | .bool _ | .int _ | .float _ | .str _ | .bytes _ | .cls _ _ | .big _ _ => true
   | .bytestr _ => su
-  | .tuple xs => keyLikeList su xs
-  | .call _ _ args => keyLikeList su args
-  | .ref p => keyLike su p
+  | .tuple xs => keyLikeList su rk xs
+  | .call _ _ args => keyLikeList su rk args
+  | .ref p => rk && keyLike su rk p
   | _ => false
-def keyLikeList (su : Bool) : List GoVal → Bool
+def keyLikeList (su rk : Bool) : List GoVal → Bool
   | [] => true
-  | x :: xs => keyLike su x && keyLikeList su xs
+  | x :: xs => keyLike su rk x && keyLikeList su rk xs
 end
 
 mutual
-theorem Rep.strip_eq {mc : MCfg} {h : List HObj} {r : GoVal} : (k : GoVal) → Rep mc h r k → keyLike mc.cfg.su k = true →
+theorem Rep.strip_eq {mc : MCfg} {ρ : GoVal → GoVal} {rk : Bool} (hρ : rk = true → ∀ p, ρ p = .ref p) {h : List HObj} {r : GoVal} : (k : GoVal) → Rep mc ρ h r k → keyLike mc.cfg.su rk k = true →
     strip r = strip k
   | .none, hr, _ | .bool _, hr, _ | .int _, hr, _ | .float _, hr, _ | .str _, hr, _ | .bytes _, hr, _ | .cls _ _, hr, _ => by
     simp only [Rep] at hr; subst hr; rfl
@@ -116,56 +116,57 @@ theorem Rep.strip_eq {mc : MCfg} {h : List HObj} {r : GoVal} : (k : GoVal) → R
   | .tuple xs, hr, hk => by
     simp only [Rep] at hr; obtain ⟨rs, rfl, hl⟩ := hr
     simp only [keyLike] at hk
-    simp [strip, RepList.strip_eq xs hl hk]
+    simp [strip, RepList.strip_eq hρ xs hl hk]
   | .call m n args, hr, hk => by
     simp only [Rep] at hr; obtain ⟨rs, rfl, hl⟩ := hr
     simp only [keyLike] at hk
-    simp [strip, RepList.strip_eq args hl hk]
+    simp [strip, RepList.strip_eq hρ args hl hk]
   | .ref p, hr, hk => by
-    simp only [Rep] at hr; obtain ⟨q, rfl, hp⟩ := hr
-    simp only [keyLike] at hk
-    simp [strip, Rep.strip_eq p hp hk]
+    simp only [Rep] at hr; obtain ⟨q, rfl, _, hp⟩ := hr
+    simp only [keyLike, Bool.and_eq_true] at hk
+    rw [hρ hk.1 q]
+    simp [strip, Rep.strip_eq hρ p hp hk.2]
   | .nil, _, hk | .uint _, _, hk | .complex _ _, _, hk | .bytearray _, _, hk | .list _, _, hk | .map _, _, hk
   | .dict _, _, hk | .user _, _, hk | .mark, _, hk | .href _, _, hk | .cycle, _, hk => by simp [keyLike] at hk
-theorem RepList.strip_eq {mc : MCfg} {h : List HObj} : {rs : List GoVal} → (xs : List GoVal) → RepList mc h rs xs →
-    keyLikeList mc.cfg.su xs = true → stripL rs = stripL xs
+theorem RepList.strip_eq {mc : MCfg} {ρ : GoVal → GoVal} {rk : Bool} (hρ : rk = true → ∀ p, ρ p = .ref p) {h : List HObj} : {rs : List GoVal} → (xs : List GoVal) → RepList mc ρ h rs xs →
+    keyLikeList mc.cfg.su rk xs = true → stripL rs = stripL xs
   | [], [], _, _ => rfl
   | [], _ :: _, hr, _ => by simp [RepList] at hr
   | _ :: _, [], hr, _ => by simp [RepList] at hr
   | r :: rs, x :: xs, hr, hk => by
     simp only [RepList] at hr
     simp only [keyLikeList, Bool.and_eq_true] at hk
-    simp [stripL, Rep.strip_eq x hr.1 hk.1, RepList.strip_eq xs hr.2 hk.2]
+    simp [stripL, Rep.strip_eq hρ x hr.1 hk.1, RepList.strip_eq hρ xs hr.2 hk.2]
 end
 
 /-- Equality between decoded keys is equality between the keys that were encoded. -/
-theorem Rep.goEqual_eq {mc : MCfg} {h : List HObj} {r1 r2 k1 k2 : GoVal} (h1 : Rep mc h r1 k1) (h2 : Rep mc h r2 k2)
-    (hk1 : keyLike mc.cfg.su k1 = true) (hk2 : keyLike mc.cfg.su k2 = true) : goEqual r1 r2 = goEqual k1 k2 := by
-  rw [← goEqual_strip r1 r2, h1.strip_eq k1 hk1, h2.strip_eq k2 hk2, goEqual_strip]
+theorem Rep.goEqual_eq {mc : MCfg} {ρ : GoVal → GoVal} {rk : Bool} (hρ : rk = true → ∀ p, ρ p = .ref p) {h : List HObj} {r1 r2 k1 k2 : GoVal} (h1 : Rep mc ρ h r1 k1) (h2 : Rep mc ρ h r2 k2)
+    (hk1 : keyLike mc.cfg.su rk k1 = true) (hk2 : keyLike mc.cfg.su rk k2 = true) : goEqual r1 r2 = goEqual k1 k2 := by
+  rw [← goEqual_strip r1 r2, Rep.strip_eq hρ k1 h1 hk1, Rep.strip_eq hρ k2 h2 hk2, goEqual_strip]
 
-theorem Rep.hashable_eq {mc : MCfg} {h : List HObj} {r k : GoVal} (h1 : Rep mc h r k)
-    (hk : keyLike mc.cfg.su k = true) : hashable r = hashable k := by
+theorem Rep.hashable_eq {mc : MCfg} {ρ : GoVal → GoVal} {rk : Bool} (hρ : rk = true → ∀ p, ρ p = .ref p) {h : List HObj} {r k : GoVal} (h1 : Rep mc ρ h r k)
+    (hk : keyLike mc.cfg.su rk k = true) : hashable r = hashable k := by
   unfold hashable
-  rw [← hashTree_strip r, h1.strip_eq k hk, hashTree_strip]
+  rw [← hashTree_strip r, Rep.strip_eq hρ k h1 hk, hashTree_strip]
 
 /-- Keys of builtin maps that come back literally: no `*big.Int` (a pointer: the decoded one is a
     different key by Go's `==`), no Tuple / Call (not comparable). -/
-def mapKeyPlain (su : Bool) : GoVal → Bool
+def mapKeyPlain (su rk : Bool) : GoVal → Bool
   | .none | .bool _ | .int _ | .float _ | .str _ | .bytes _ | .cls _ _ => true
   | .bytestr _ => su
-  | .ref p => mapKeyPlain su p
+  | .ref p => rk && mapKeyPlain su rk p
   | _ => false
 
-theorem Rep.eq_of_plain {mc : MCfg} {h : List HObj} {r : GoVal} : (k : GoVal) → Rep mc h r k → mapKeyPlain mc.cfg.su k = true → r = k
+theorem Rep.eq_of_plain {mc : MCfg} {ρ : GoVal → GoVal} {rk : Bool} (hρ : rk = true → ∀ p, ρ p = .ref p) {h : List HObj} {r : GoVal} : (k : GoVal) → Rep mc ρ h r k → mapKeyPlain mc.cfg.su rk k = true → r = k
   | .none, hr, _ | .bool _, hr, _ | .int _, hr, _ | .float _, hr, _ | .str _, hr, _ | .bytes _, hr, _ | .cls _ _, hr, _ => by
     simp only [Rep] at hr; exact hr
   | .bytestr s, hr, hk => by
     simp only [mapKeyPlain] at hk
     simp only [Rep, hk, if_true] at hr; exact hr
   | .ref p, hr, hk => by
-    simp only [Rep] at hr; obtain ⟨q, rfl, hp⟩ := hr
-    simp only [mapKeyPlain] at hk
-    rw [Rep.eq_of_plain p hp hk]
+    simp only [Rep] at hr; obtain ⟨q, rfl, _, hp⟩ := hr
+    simp only [mapKeyPlain, Bool.and_eq_true] at hk
+    rw [hρ hk.1 q, Rep.eq_of_plain hρ p hp hk.2]
   | .nil, _, hk | .uint _, _, hk | .complex _ _, _, hk | .bytearray _, _, hk | .list _, _, hk | .map _, _, hk | .big _ _, _, hk
   | .dict _, _, hk | .user _, _, hk | .mark, _, hk | .href _, _, hk | .cycle, _, hk | .tuple _, _, hk | .call _ _ _, _, hk => by
     simp [mapKeyPlain] at hk
@@ -227,8 +228,8 @@ theorem assignAll_map_append : (reps es0 : Entries) → (∀ e ∈ reps, goMapHa
     simp
 
 /-- The values above the mark are the entries' keys and values alternating. -/
-theorem repPairs_of_flat {mc : MCfg} {h : List HObj} : (kvs : Entries) → (rs : List GoVal) → RepList mc h rs (flatE kvs) →
-    ∃ es, rs = flatE es ∧ RepPairs mc h es kvs
+theorem repPairs_of_flat {mc : MCfg} {ρ : GoVal → GoVal} {h : List HObj} : (kvs : Entries) → (rs : List GoVal) → RepList mc ρ h rs (flatE kvs) →
+    ∃ es, rs = flatE es ∧ RepPairs mc ρ h es kvs
   | [], [], _ => ⟨[], rfl, by simp [RepPairs]⟩
   | [], _ :: _, hr => by simp [flatE, RepList] at hr
   | (k, v) :: kvs, [], hr => by simp [flatE, RepList] at hr
@@ -238,8 +239,8 @@ theorem repPairs_of_flat {mc : MCfg} {h : List HObj} : (kvs : Entries) → (rs :
     obtain ⟨es, rfl, hp⟩ := repPairs_of_flat kvs rs hr.2.2
     exact ⟨(rk, rv) :: es, rfl, by simp only [RepPairs]; exact ⟨hr.1, hr.2.1, hp⟩⟩
 
-theorem RepPairs.keys {mc : MCfg} {h : List HObj} : {es kvs : Entries} → RepPairs mc h es kvs →
-    RepList mc h (es.map (·.1)) (kvs.map (·.1))
+theorem RepPairs.keys {mc : MCfg} {ρ : GoVal → GoVal} {h : List HObj} : {es kvs : Entries} → RepPairs mc ρ h es kvs →
+    RepList mc ρ h (es.map (·.1)) (kvs.map (·.1))
   | [], [], _ => by simp [RepList]
   | [], _ :: _, hr => by simp [RepPairs] at hr
   | _ :: _, [], hr => by simp [RepPairs] at hr
@@ -248,8 +249,8 @@ theorem RepPairs.keys {mc : MCfg} {h : List HObj} : {es kvs : Entries} → RepPa
     simp only [List.map_cons, RepList]
     exact ⟨hr.1, RepPairs.keys hr.2.2⟩
 
-theorem RepList.mem {mc : MCfg} {h : List HObj} {su : Bool} : {rs xs : List GoVal} → RepList mc h rs xs → keyLikeList su xs = true →
-    ∀ r ∈ rs, ∃ x ∈ xs, Rep mc h r x ∧ keyLike su x = true
+theorem RepList.mem {mc : MCfg} {ρ : GoVal → GoVal} {h : List HObj} {su rk : Bool} : {rs xs : List GoVal} → RepList mc ρ h rs xs → keyLikeList su rk xs = true →
+    ∀ r ∈ rs, ∃ x ∈ xs, Rep mc ρ h r x ∧ keyLike su rk x = true
   | [], [], _, _ => by simp
   | [], _ :: _, hr, _ => by simp [RepList] at hr
   | _ :: _, [], hr, _ => by simp [RepList] at hr
@@ -262,29 +263,29 @@ theorem RepList.mem {mc : MCfg} {h : List HObj} {su : Bool} : {rs xs : List GoVa
     · obtain ⟨z, hz, h1, h2⟩ := RepList.mem hr.2 hk.2 y hy
       exact ⟨z, by simp [hz], h1, h2⟩
 
-theorem keyLikeList_snoc {su : Bool} : (xs : List GoVal) → (x : GoVal) → keyLikeList su xs = true → keyLike su x = true →
-    keyLikeList su (xs ++ [x]) = true
+theorem keyLikeList_snoc {su rk : Bool} : (xs : List GoVal) → (x : GoVal) → keyLikeList su rk xs = true → keyLike su rk x = true →
+    keyLikeList su rk (xs ++ [x]) = true
   | [], x, _, hx => by simp [keyLikeList, hx]
   | y :: ys, x, hxs, hx => by
     simp only [keyLikeList, Bool.and_eq_true, List.cons_append] at hxs ⊢
     exact ⟨hxs.1, keyLikeList_snoc ys x hxs.2 hx⟩
 
 /-- Freshness of the encoded keys carries over to the decoded keys (Dict mode). -/
-theorem freshOver_rep {mc : MCfg} {h : List HObj} : (ks rks : List GoVal) → (old rold : List GoVal) →
-    RepList mc h rks ks → keyLikeList mc.cfg.su ks = true → RepList mc h rold old → keyLikeList mc.cfg.su old = true →
+theorem freshOver_rep {mc : MCfg} {ρ : GoVal → GoVal} {rk : Bool} (hρ : rk = true → ∀ p, ρ p = .ref p) {h : List HObj} : (ks rks : List GoVal) → (old rold : List GoVal) →
+    RepList mc ρ h rks ks → keyLikeList mc.cfg.su rk ks = true → RepList mc ρ h rold old → keyLikeList mc.cfg.su rk old = true →
     freshOver goEqual old ks → freshOver goEqual rold rks
   | [], [], _, _, _, _, _, _, _ => by simp [freshOver]
   | [], _ :: _, _, _, hr, _, _, _, _ => by simp [RepList] at hr
   | _ :: _, [], _, _, hr, _, _, _, _ => by simp [RepList] at hr
-  | k :: ks, rk :: rks, old, rold, hr, hk, hro, hko, hf => by
+  | k :: ks, rk' :: rks, old, rold, hr, hk, hro, hko, hf => by
     simp only [RepList] at hr
     simp only [keyLikeList, Bool.and_eq_true] at hk
     simp only [freshOver] at hf ⊢
-    refine ⟨?_, freshOver_rep ks rks (old ++ [k]) (rold ++ [rk]) hr.2 hk.2 (RepList.snoc hro hr.1)
+    refine ⟨?_, freshOver_rep hρ ks rks (old ++ [k]) (rold ++ [rk']) hr.2 hk.2 (RepList.snoc hro hr.1)
       (keyLikeList_snoc old k hko hk.1) hf.2⟩
     intro o ho
     obtain ⟨x, hx, h1, h2⟩ := RepList.mem hro hko o ho
-    rw [Rep.goEqual_eq hr.1 h1 hk.1 h2]
+    rw [Rep.goEqual_eq hρ hr.1 h1 hk.1 h2]
     exact hf.1 x hx
 
 end Ogorek
